@@ -371,6 +371,13 @@ fn c04(cx: &Ctx, o: &mut Outcome) {
                     o.verdicts.push(v("C04", if c.outbound.is_empty() { "no_response.segmented_request" } else { "incomplete_response.segmented_request" }, format!("request {:?} delivered in {} segments: {}", escape_trunc(&sc_conn.request.0, 100), sc_conn.delivery.len(), why), Some(i)));
                 }
             }
+        } else if sc_conn.faults.handler_panic.is_some() {
+            // a scripted application panic is only there to set up a history
+            for (k, p) in r.panics.iter().enumerate() {
+                if p.conn == Some(i) && p.msg.starts_with("simulated application panic") {
+                    cited.push(k);
+                }
+            }
         } else if let Some(k) = r.panics.iter().position(|p| p.conn == Some(i)) {
             // relaxed regime: whatever the transport did, no panic
             if !cited.contains(&k) {
@@ -1216,6 +1223,22 @@ fn c09(cx: &Ctx, o: &mut Outcome) {
                     if allowed {
                         if other.get("Access-Control-Allow-Origin") != Some(origin) {
                             o.verdicts.push(v("C09", format!("options.no_preflight_grant.{}", route), format!("OPTIONS {} with allowed Origin {}: Access-Control-Allow-Origin is {:?}", target, origin, other.get("Access-Control-Allow-Origin")), Some(i)));
+                        } else if cfg.allow_all {
+                            // "so that browser preflights succeed": with the allow-all switch on, the
+                            // method and every header name the browser asks for must be granted
+                            if let Some(m) = cx.reqs[i].header("Access-Control-Request-Method") {
+                                let got = model::token_set(other.get("Access-Control-Allow-Methods").unwrap_or(""));
+                                if !got.contains(&m.to_ascii_lowercase()) && !got.contains(&"*".to_string()) {
+                                    o.verdicts.push(v("C09", format!("options.preflight_method_not_granted.{}", route), format!("OPTIONS {} (allow-all) asked for method {}: Access-Control-Allow-Methods is {:?}", target, m, other.get("Access-Control-Allow-Methods")), Some(i)));
+                                }
+                            }
+                            if let Some(hs) = cx.reqs[i].header("Access-Control-Request-Headers") {
+                                let got = model::token_set(other.get("Access-Control-Allow-Headers").unwrap_or(""));
+                                let missing: Vec<String> = model::token_set(hs).into_iter().filter(|h| !got.contains(h) && !got.contains(&"*".to_string())).collect();
+                                if !missing.is_empty() {
+                                    o.verdicts.push(v("C09", format!("options.preflight_header_not_granted.{}", route), format!("OPTIONS {} (allow-all) asked for headers {:?}: Access-Control-Allow-Headers {:?} lacks {:?}", target, hs, other.get("Access-Control-Allow-Headers"), missing), Some(i)));
+                                }
+                            }
                         }
                     }
                 }
@@ -1253,7 +1276,22 @@ fn c11(cx: &Ctx, o: &mut Outcome) {
     }
     let cfg = model::cors_cfg(&cx.sc.env);
     for i in cx.scripted() {
-        if !cx.sc.conns[i].strict() || !cx.wellformed_req(i) {
+        if !cx.sc.conns[i].strict() {
+            continue;
+        }
+        if !cx.wellformed_req(i) {
+            // a request whose bytes mention no Origin at all never receives grants, however the
+            // rest of its head looks (as long as the request line itself is valid)
+            let bytes = cx.reqs_bytes(i).to_ascii_lowercase();
+            if cx.request_line_valid(i) && !contains(&bytes, b"origin") && !contains(&bytes, b"access-control") {
+                if let Some(resp) = cx.resp(i) {
+                    o.evaluated = true;
+                    let acs: Vec<String> = resp.headers.iter().filter(|(n, _)| n.to_ascii_lowercase().starts_with("access-control-")).map(|(n, v)| format!("{}: {}", n, v)).collect();
+                    if !acs.is_empty() {
+                        o.verdicts.push(v("C11", "grant_without_origin.unterminated_head", format!("request {:?} carries no Origin header but the response carries {:?}", escape_trunc(&cx.reqs_bytes(i), 100), acs), Some(i)));
+                    }
+                }
+            }
             continue;
         }
         let resp = match cx.resp(i) {
